@@ -1,5 +1,6 @@
 import Driver.TirJson
 import Tx3Model.CompilerOps
+import Tx3Model.SpecTir
 
 /-! Judge of the shared L3 probe (C06, C07): staged application, reduction, compiler pass. -/
 
@@ -136,6 +137,8 @@ def judge (prop : String) (j : Json) : R Verdict := do
     else if !valuesNF then tags := tags ++ ["wf:values-not-in-normal-form"]
     else if !(applied.slots.all Expr.WF) then corr := corr ++ ["wf:applied"]
     else tags := tags ++ ["wf-holds"]
+    -- the second hypothesis of the confluence theorem (`C07_reduce_commutes_with_stage`)
+    tags := tags ++ [if tx.slots.all Expr.sealedb && applied.slots.all Expr.sealedb then "sealed-holds" else "sealed-fails"]
     let r0 := fieldD obs "reduced0"
     let r0t := fieldD obs "reduced0_twice"
     if !(isNull r0t) then
